@@ -111,6 +111,17 @@ PROPS["C06"] = {
     "assumptions": ["read-repair is stated for reads executed by the partition owner with every backup owner reachable and no previous owner (C06_read_repair hypotheses); unreachable members are skipped by the code and by the model",
                     "on equal timestamps the incoming / later gathered version wins; the property does not order ties and the oracle accepts either"],
 }
+PROPS["C07"] = {
+    "lean": ["OlricModel.Props.C07"],
+    "streams": [("atomics", (12, 60), (150, 200)), ("cluster", (4, 150), (30, 400))],
+    "model": True,
+    "level_text": "Theorems: (A) a micro-step model of n concurrent read-modify-write callers (take the executing member's named mutex, read, write, release), for EVERY schedule of the micro-steps: when all callers execute on one member the writes form a serial execution in which each caller read exactly what the callers before it left, nobody is lost or duplicated (C07_serializable); for counters the final value is the initial value plus the sum of all deltas (C07_no_lost_update), for GetPut the returned values form one chain (C07_getput_chain); the statement is false with callers on two members (witness by decide). (B) in a stable healthy cluster the model's incr / getPut are the abstract counter / register step, acknowledged and mirrored, the expiry kept, and the stored decimal number round-trips so that sequences add up (incr_refines, getPut_refines, parseIntB_intBytes, C07_counter_sums). (C) that every call executes on the partition owner is extracted from the source on every run (facts_tie). Tied to the code by the atomics stream: all entry points, a second caller started inside the first one's read-modify-write window at a yield point of the harness build, and real concurrent races through all members and client kinds.",
+    "design_ref": "DESIGN.md §6 C07",
+    "modelled": DMAP_MODELLED + "; dmap.atomicIncrDecr / getPut as compositions of get and put; internal/locker as one mutex per member and key",
+    "assumptions": ["the named mutex (internal/locker) is a mutex, and Get/Put inside the window are the model's get/put (exercised by the races, not proved)",
+                    "IncrByFloat is covered by the stream only (dyadic deltas, exact float arithmetic): floats are not modelled in Lean",
+                    "int overflow of the counter is outside the property; an unparsable stored value counts as 0 (as in the code)"],
+}
 PROPS["C08"] = {
     "lean": ["OlricModel.Props.C08"],
     "streams": [("locks", (12, 70), (150, 200)), ("cluster", (4, 150), (30, 400))],
